@@ -1256,6 +1256,9 @@ func (mgr *Manager) UpdateTag(name string, operation UpdateTagOperation) error {
 				if mgr.createsTagCycle(name, newTag) {
 					return errors.New("cyclic reference not allowed in tags")
 				}
+				if len(tag.converters) != 0 && !newTag.allowsConverters() {
+					return fmt.Errorf("cannot change the query of tag %q: it is too complex for the attached converters", name)
+				}
 			}
 			if info.color != "" {
 				tag.color = info.color
